@@ -384,8 +384,8 @@ func run(c caseT) outcome {
 	resp := opfix.Do(w.f.Handlers[c.Router], req)
 
 	o := outcome{Status: resp.Status, Panic: resp.Panic, Writes: resp.Writes, Body: resp.Body}
-	if len(o.Body) > 300 {
-		o.Body = o.Body[:300]
+	if len(o.Body) > 160 {
+		o.Body = o.Body[:160]
 	}
 	if resp.JSON != nil {
 		o.Err, _ = resp.JSON["error"].(string)
@@ -584,7 +584,7 @@ func enumerate(r drv.Rand, emitCase func(caseT)) {
 			}
 			for _, g := range grants {
 				for meth := 0; meth < 4; meth++ {
-					for app := 0; app < 3; app++ {
+					for app := r.IntN(3); app < 3; app += 3 { // drawn: no guard of the repaired code reads the application type
 						for _, p := range ps {
 							for flags := 0; flags < 8; flags++ {
 								for v := 0; v < 8; v++ { // v: known/registered/key/capability variants
@@ -655,7 +655,7 @@ func main() {
 		enumerate(r, add)
 	}
 	err := w.Close(emit.Meta{Property: "C05", Tier: cfg.Tier, Seed: cfg.Seed, Exhaustive: exhaustive,
-		Rule: "one HTTP request per case against the Provider or the LegacyServer router over refstore, with an otherwise valid grant (code+PKCE, refresh token, device code, subject token, key-signed assertion) prepared in the store for the case's client; varied: registration (auth method, grant set, app type, key, known), presented credential (16 forms), grant_type (9), provider flags and storage capabilities (6 switches), endpoint (4). quick: directed defect inputs + random draws (fitting credential half of the time); thorough: the cross product, enumerating only the membership of the grant at stake and the capability at stake. Non-trivial = model path class != 0 (the request got past the first guard of its handler); distinct = distinct (input, path class).",
+		Rule: "one HTTP request per case against the Provider or the LegacyServer router over refstore, with an otherwise valid grant (code+PKCE, refresh token, device code, subject token, key-signed assertion) prepared in the store for the case's client; varied: registration (auth method, grant set, app type, key, known), presented credential (16 forms), grant_type (9), provider flags and storage capabilities (6 switches), endpoint (4). quick: directed defect inputs + random draws (fitting credential half of the time); thorough: the cross product, enumerating of the grant set only the membership of the grant at stake, of the six switches the three flags and the capability at stake, and drawing the application type. Non-trivial = model path class != 0 (the request got past the first guard of its handler); distinct = distinct (input, path class).",
 	})
 	if err != nil {
 		fmt.Fprintln(os.Stderr, err)
